@@ -568,9 +568,7 @@ let between (s : string) (tag : string) : string =
 let parse_entries (s : string) : (ikey * n list) list =
   if s = "-" || s = "none" then [] else List.map parse_entry (split_nonempty ',' s)
 
-let suite_dumpcheck (line : string) : string =
-  match split_nonempty ' ' line with
-  | [ id; dump ] ->
+let parse_dump (dump : string) : lsm * bool =
       let lv = String.split_on_char '/' (between dump "V") in
       let unreadable = ref false in
       let store = ref [] in
@@ -599,8 +597,30 @@ let suite_dumpcheck (line : string) : string =
       let imm = if imms = "none" then None else Some (parse_entries imms) in
       let seq = n_of_string (between dump "seq") in
       let snaps = List.map n_of_string (split_nonempty ',' (between dump "snaps")) in
-      let st = { l_mem = mem; l_imm = imm; l_ver = version; l_store = !store; l_seq = seq;
-                 l_snaps = snaps; l_next = n_of_string (between dump "next"); l_panic = false } in
+      ({ l_mem = mem; l_imm = imm; l_ver = version; l_store = !store; l_seq = seq;
+         l_snaps = snaps; l_next = n_of_string (between dump "next"); l_panic = false }, !unreadable)
+
+(* ---------- suite: itercheck (the DatabaseIterator model on a dumped state) ---------- *)
+let suite_itercheck (line : string) : string =
+  match split_nonempty ' ' line with
+  | [ id; dump; q; ops ] ->
+      let st, _ = parse_dump dump in
+      let q = if q = "-" then st.l_seq else n_of_string q in
+      let iops =
+        List.map (fun o -> match o.[0] with
+          | 'f' -> IFirst | 'l' -> ILast | 'n' -> INext | 'p' -> IPrev
+          | 's' -> ISeek (parse_bytes (String.sub o 1 (String.length o - 1)))
+          | _ -> failwith "bad iop") (split_nonempty ',' ops) in
+      let tr, ok = d_run (d_new (iter_children st) q) iops in
+      Printf.sprintf "%s %s" id (if ok then show_hres (RTrace tr) else show_hres (RTrace tr) ^ ",PANIC")
+  | _ -> failwith "bad itercheck case"
+
+let suite_dumpcheck (line : string) : string =
+  match split_nonempty ' ' line with
+  | [ id; dump ] ->
+      let st, unreadable_flag = parse_dump dump in
+      let unreadable = ref unreadable_flag in
+      let version = st.l_ver and store = ref st.l_store and seq = st.l_seq and snaps = st.l_snaps in
       let lookup nn = match List.assoc_opt nn !store with Some es -> es | None -> [] in
       let shape = shape_ok version lookup && not !unreadable && lsm_wf_b st in
       let all = all_entries st in
@@ -697,6 +717,7 @@ let () =
     | "vfn" -> suite_vfn
     | "dbhist" -> suite_dbhist
     | "dumpcheck" -> suite_dumpcheck
+    | "itercheck" -> suite_itercheck
     | "wspec" -> suite_wspec
     | "lock" -> suite_lock
     | _ -> failwith ("unknown suite " ^ suite)
